@@ -762,7 +762,8 @@ Proof.
   intros Hi Hc. unfold acme_account. rewrite Hc. cbn [negb].
   destruct (account_eqb (sg_account s) _) eqn:E; [|reflexivity].
   apply account_eqb_eq in E. destruct (sg_client s) eqn:Ec; [reflexivity|].
-  exfalso. rewrite (Hi Ec) in E. unfold configured in Hc. rewrite <- E in Hc. cbn in Hc. discriminate.
+  exfalso. rewrite (Hi Ec) in E. unfold empty_account in E. injection E as E1 E2 E3.
+  unfold configured in Hc. rewrite <- E1, <- E2, <- E3 in Hc. cbn in Hc. discriminate.
 Qed.
 
 Definition run_accounts (h : list (bool * account)) (s : signer_state) : signer_state :=
